@@ -226,6 +226,9 @@ func checkC16(c *Ctx) {
 		R.hold("C16.nowrite", "no-writes-to-package-level-state", "", "no store or map update through a package-level variable outside init functions")
 	}
 
+	// ---- C16.fnshared
+	ruleFunctionImmutable(c, u, "C16.fnshared")
+
 	// ---- C16.defaults
 	ruleNewObjectCopies(c, u, "C16.defaults")
 	ruleDupDeep(c, u, "C16.defaults")
